@@ -64,6 +64,91 @@ let strs_of_arg (a : string) : n list list =
 let arg_of_strs (l : n list list) : string =
   match l with [] -> "." | _ -> String.concat "," (List.map hex_of_str l)
 
+
+(* ---------- rassemble.Join oracle: a long-lived helper process (vh joinsrv) ---------- *)
+let join_proc = lazy (
+  let cmd = (try Sys.getenv "VERIF_JOINSRV" with Not_found -> "/verif/build/vh") ^ " joinsrv" in
+  Unix.open_process cmd)
+let join_memo : (string, n list option) Hashtbl.t = Hashtbl.create 1024
+let join_calls = ref 0
+let join (ls : n list list) : n list option =
+  let key = arg_of_strs ls in
+  match Hashtbl.find_opt join_memo key with
+  | Some r -> r
+  | None ->
+    incr join_calls;
+    let (ic, oc) = Lazy.force join_proc in
+    output_string oc key; output_char oc '\n'; flush oc;
+    let l = input_line ic in
+    let r = if String.length l >= 3 && String.sub l 0 3 = "OK\t" then Some (str_of_hex (String.sub l 3 (String.length l - 3))) else None in
+    Hashtbl.replace join_memo key r; r
+
+(* ---------- encodings of the larger arguments ---------- *)
+(* association list: k=v,k=v (hex); "." = empty *)
+let smap_of_arg (a : string) : (n list * n list) list =
+  if a = "" || a = "." then [] else
+    List.map (fun kv -> match String.split_on_char '=' kv with
+        | [k; v] -> (str_of_hex k, str_of_hex v)
+        | _ -> failwith "bad smap") (String.split_on_char ',' a)
+let arg_of_smap (m : (n list * n list) list) : string =
+  match m with [] -> "." | _ -> String.concat "," (List.map (fun (k, v) -> hex_of_str k ^ "=" ^ hex_of_str v) m)
+
+(* files: d:name:content;...  with d in i/e/a *)
+let fsys_of_arg (a : string) : fsys =
+  let entries = if a = "" || a = "." then [] else String.split_on_char ';' a in
+  let pick d = List.filter_map (fun e -> match String.split_on_char ':' e with
+      | [d'; nm; c] when d' = d -> Some (str_of_hex nm, str_of_hex c)
+      | _ -> None) entries in
+  { fs_include = pick "i"; fs_exclude = pick "e"; fs_abs = pick "a" }
+
+let config_of_args evu evw sfu sfw nsu nsw : config =
+  trim_config { cf_ev_unix = str_of_hex evu; cf_ev_windows = str_of_hex evw; cf_suf_unix = str_of_hex sfu;
+                cf_suf_windows = str_of_hex sfw; cf_ns_unix = str_of_hex nsu; cf_ns_windows = str_of_hex nsw }
+
+let rec permutations = function
+  | [] -> [[]]
+  | l -> List.concat (List.mapi (fun i x ->
+      let rest = List.filteri (fun j _ -> j <> i) l in
+      List.map (fun p -> x :: p) (permutations rest)) l)
+
+let distinct (l : string list) : string list =
+  List.fold_left (fun acc x -> if List.mem x acc then acc else acc @ [x]) [] l
+let alternatives (l : string list) : string =
+  match distinct l with
+  | [x] -> x
+  | xs -> "ORDER-DEPENDENT\t" ^ String.concat "\x1f" xs
+
+let show_outcome_str = function Ok o -> "OK\t" ^ hex_of_str o | Err c -> "ERR\t" ^ string_of_int (int_of_n c) | Crash _ -> "CRASH"
+let show_outcome_class = function Ok o -> "OK\t" ^ hex_of_str o | Err _ -> "ERR" | Crash _ -> "CRASH"
+
+(* the four iteration-order strategies tried for whole-pipeline cases *)
+let strategies =
+  let idf x = x and revf x = List.rev x in
+  [ (all_pnames, idf, idf); (List.rev all_pnames, revf, revf); (all_pnames, revf, idf); (List.rev all_pnames, idf, revf) ]
+
+(* ---------- regular expressions for the equivalence oracle ---------- *)
+(* prefix form, space separated: e v b z | c K lo hi ... | k A B | a A B | s A *)
+let re_of_arg (a : string) : re =
+  let toks = ref (List.filter (fun t -> t <> "") (String.split_on_char ' ' a)) in
+  let next () = match !toks with t :: r -> toks := r; t | [] -> failwith "re: truncated" in
+  let rec go () =
+    match next () with
+    | "e" -> Eps | "v" -> Void | "b" -> Bol | "z" -> Eol
+    | "c" ->
+      let k = int_of_string (next ()) in
+      let rs = List.init k (fun _ -> let lo = n_of_int (int_of_string (next ())) in let hi = n_of_int (int_of_string (next ())) in (lo, hi)) in
+      Cls rs
+    | "k" -> let x = go () in let y = go () in Cat (x, y)
+    | "a" -> let x = go () in let y = go () in Alt (x, y)
+    | "s" -> Star (go ())
+    | t -> failwith ("re: bad token " ^ t) in
+  go ()
+let show_word (w : n list) = match w with [] -> "-" | _ -> String.concat "," (List.map (fun c -> string_of_int (int_of_n c)) w)
+let show_verdict = function
+  | Holds v -> "HOLDS\t" ^ string_of_int (List.length v)
+  | Differs (s, w) -> "DIFFERS\t" ^ (if s then "start" else "mid") ^ "\t" ^ show_word w
+  | OutOfFuel -> "FUEL"
+
 let run_case (fields : string list) : string =
   match fields with
   | "rule_id" :: _ :: s :: _ ->
@@ -122,6 +207,62 @@ let run_case (fields : string list) : string =
     (match read_current (str_of_hex c) (str_of_hex id) (n_of_int (int_of_string k)) with
      | Ok o -> if unchanged o (str_of_hex gen) then "UNCHANGED" else "CHANGED"
      | Err _ -> "ERR" | Crash _ -> "CRASH")
+  | "pass" :: name :: inp :: rest ->
+    let i = str_of_hex inp in
+    let nat k = nat_of_int (int_of_string (List.nth rest k)) in
+    (match name with
+     | "escape_dq" -> "OK\t" ^ hex_of_str (escape_doublequotes i)
+     | "hex_bs" -> "OK\t" ^ hex_of_str (use_hex_backslashes i)
+     | "include_vt" -> "OK\t" ^ hex_of_str (include_vt i)
+     | "hex_escapes" -> "OK\t" ^ hex_of_str (use_hex_escapes i)
+     | "dont_use_flags" -> show_outcome_class (dont_use_flags i)
+     | "remove_outermost" -> show_outcome_class (remove_outermost i)
+     | "final_passes" -> show_outcome_class (final_passes i)
+     | "is_escaped" -> if is_escaped i (nat 0) then "true" else "false"
+     | "find_group_body_end" ->
+       (match find_group_body_end i (nat 0) with
+        | Ok (idx, a) -> "OK\t" ^ string_of_int (int_of_nat idx - 2) ^ "\t" ^ (if a then "true" else "false")
+        | Err _ -> "ERR" | Crash _ -> "CRASH")
+     | "remove_group" -> show_outcome_class (remove_group i (nat 0) (nat 1) (List.nth rest 2 = "true"))
+     | _ -> "UNKNOWN-PASS")
+  | "regexp_str" :: ev :: sf :: ns :: inp :: _ ->
+    let e = { ev_pattern = str_of_hex ev; ev_suffix = str_of_hex sf; ev_nospace_suffix = str_of_hex ns } in
+    "OK\t" ^ hex_of_str (regexp_str e (str_of_hex inp))
+  | "compute_suffix" :: ev :: sf :: ns :: inp :: _ ->
+    let e = { ev_pattern = str_of_hex ev; ev_suffix = str_of_hex sf; ev_nospace_suffix = str_of_hex ns } in
+    let (a, b) = compute_suffix e (str_of_hex inp) in
+    "OK\t" ^ hex_of_str a ^ "\t" ^ hex_of_str b
+  | "expand_defs" :: vars :: src :: _ ->
+    let m = smap_of_arg vars and s = str_of_hex src in
+    let keys = List.map fst m in
+    let orders = if List.length keys <= 4 then permutations keys else [keys; List.rev keys] in
+    alternatives (List.concat_map (fun o1 -> List.map (fun o2 ->
+        "OK\t" ^ hex_of_str (fst (expand_definitions o1 o2 m s))) orders) orders)
+  | "replace_suffixes" :: pairs :: content :: _ ->
+    let c = str_of_hex content in
+    if pairs = "nil" then "OK\t" ^ hex_of_str (replace_suffixes (fun x -> x) scan_limit_replace_suffixes c None)
+    else begin
+      let m = smap_of_arg pairs in
+      let perms = if List.length m <= 4 then permutations m else [m; List.rev m] in
+      alternatives (List.map (fun p -> "OK\t" ^ hex_of_str (replace_suffixes (fun _ -> p) scan_limit_replace_suffixes c (Some m))) perms)
+    end
+  | "parse" :: fs :: contents :: _ ->
+    let f = fsys_of_arg fs and c = str_of_hex contents in
+    alternatives (List.map (fun (op, os, oi) ->
+        match parse_only op os oi scan_limit_parser_parse f c with
+        | Ok r -> String.concat "\t" ["OK"; hex_of_str r.r_dest; (if r.r_flag_i then "i" else "") ^ (if r.r_flag_s then "s" else "") ^ "."; arg_of_strs r.r_prefixes; arg_of_strs r.r_suffixes]
+        | Err _ -> "ERR" | Crash _ -> "CRASH") strategies)
+  | "generate" :: evu :: evw :: sfu :: sfw :: nsu :: nsw :: fs :: contents :: _ ->
+    let cfg = config_of_args evu evw sfu sfw nsu nsw in
+    let f = fsys_of_arg fs and c = str_of_hex contents in
+    alternatives (List.map (fun (op, os, oi) ->
+        show_outcome_class (generate join cfg op os oi scan_limit_parser_parse scan_limit_assembler_assemble f c)) strategies)
+  | "equiv" :: excl :: fuel :: r1 :: r2 :: _ ->
+    let ex = if excl = "." then [] else List.map (fun t -> n_of_int (int_of_string t)) (String.split_on_char ',' excl) in
+    show_verdict (equivalent ex (nat_of_int (int_of_string fuel)) (re_of_arg r1) (re_of_arg r2))
+  | "incl" :: excl :: fuel :: r1 :: r2 :: _ ->
+    let ex = if excl = "." then [] else List.map (fun t -> n_of_int (int_of_string t)) (String.split_on_char ',' excl) in
+    show_verdict (included ex (nat_of_int (int_of_string fuel)) (re_of_arg r1) (re_of_arg r2))
   | s :: _ -> "UNKNOWN-SUITE " ^ s
   | [] -> "EMPTY"
 
